@@ -362,22 +362,67 @@ Proof.
   - intros [E|Hin]; [left; injection E as -> ->; reflexivity|right; apply in_or_app; right; auto].
 Qed.
 
+Lemma folds_with_parent_requests t : forall vs h, In (vs, h) (folds_with_parent t) ->
+  forall r, In r (fold_local_requests vs h) -> In r (property_requests_comp t).
+Proof.
+  induction t as [root vs0 ss outs IH] using comp_ind'. intros vs h Hph r Hr.
+  rewrite folds_with_parent_eq in Hph. rewrite property_requests_comp_eq.
+  apply in_or_app. right. apply in_or_app. right.
+  induction ss as [|[e|h' sub'] rest IHr]; cbn in *; [contradiction| |].
+  - inversion IH; subst. auto.
+  - inversion IH as [|? ? Hs Hrest]; subst. destruct Hph as [E|Hph].
+    + injection E as -> ->. apply in_or_app. now left.
+    + apply in_or_app. right. apply in_app_or in Hph. apply in_or_app.
+      destruct Hph as [Hph|Hph]; [left; eapply Hs; eauto|right; auto].
+Qed.
+
+Lemma wf_hints_query_parts q : wf_hints_query q = true ->
+  nodupN (all_vids (q_comp q)) = true /\ outputs_local (q_comp q) = true /\
+  fold_roots_ok (q_comp q) = true /\ imports_local (q_comp q) = true.
+Proof.
+  unfold wf_hints_query. intros H. apply andb_prop in H. destruct H as [H H4].
+  apply andb_prop in H. destruct H as [H H3]. apply andb_prop in H. destruct H as [H1 H2]. auto.
+Qed.
+
+Lemma imports_local_here root vs ss outs h sub :
+  imports_local (mkComp root vs ss outs) = true -> In (SFold h sub) ss ->
+  (forall cf, In (FRContext cf) (fo_imported h) -> exists u, find_vertex vs (cf_vid cf) = Some u) /\
+  imports_local sub = true.
+Proof.
+  cbn. induction ss as [|[e|h' sub'] r IH]; cbn; [intros _ []| |].
+  - intros H [E|Hin]; [discriminate|auto].
+  - intros H [E|Hin].
+    + injection E as -> ->. apply andb_prop in H. destruct H as [H _]. apply andb_prop in H. destruct H as [H1 H2].
+      split; [|assumption]. intros cf Hcf. rewrite forallb_forall in H1. specialize (H1 _ Hcf). cbn in H1.
+      destruct (find_vertex vs (cf_vid cf)); [eauto|discriminate].
+    + apply andb_prop in H. destruct H as [_ H]. auto.
+Qed.
+
+Lemma imports_local_sub c top : subcomp c top -> imports_local top = true -> imports_local c = true.
+Proof.
+  induction 1 as [|c root vs ss outs h sub Hin Hsub IH]; [auto|].
+  intros H. apply IH. now destruct (imports_local_here _ _ _ _ _ _ H Hin).
+Qed.
+
 Section C05.
   Variable q : ir_query.
   Hypothesis Hwf : wf_hints_query q = true.
 
   Let top := q_comp q.
   Lemma top_unique : vids_unique top.
-  Proof. unfold wf_hints_query in Hwf. apply andb_prop in Hwf. destruct Hwf as [H _]. apply andb_prop in H. destruct H as [H _]. now apply nodupN_NoDup. Qed.
+  Proof. destruct (wf_hints_query_parts q Hwf) as (H & _). now apply nodupN_NoDup. Qed.
   Lemma top_outputs : outputs_local top = true.
-  Proof. unfold wf_hints_query in Hwf. apply andb_prop in Hwf. destruct Hwf as [H _]. apply andb_prop in H. now destruct H. Qed.
+  Proof. now destruct (wf_hints_query_parts q Hwf) as (_ & H & _). Qed.
+  Lemma top_imports : imports_local top = true.
+  Proof. now destruct (wf_hints_query_parts q Hwf) as (_ & _ & _ & H). Qed.
 
   (* required_properties at a vertex of a sub-component, computed *)
   Lemma required_of_sub c v :
     subcomp c top -> In v (c_vertices c) ->
     forall p, In p (required_of q (v_vid v)) <->
       In p (flat_map (fun o => if N.eqb (cf_vid (snd o)) (v_vid v) then [cf_name (snd o)] else []) (c_outputs c)
-            ++ map vf_field (v_filters v) ++ tag_uses_of (v_vid v) (c_vertices c)).
+            ++ map vf_field (v_filters v) ++ tag_uses_of (v_vid v) (c_vertices c)
+            ++ fold_tag_uses_of (v_vid v) (c_steps c)).
   Proof.
     intros Hsub Hv p. unfold required_of, required_properties, current_vertex, current_component, comp_at.
     cbn [vi_vid resolve_info].
@@ -403,16 +448,16 @@ Section C05.
     destruct (find_vertex (c_vertices c) (cf_vid cf)) as [u|] eqn:F; [|contradiction].
     destruct Hr as [<-|[]]. cbn [fst snd].
     apply find_vertex_some in F. destruct F as [Hu Eu]. rewrite <- Eu.
-    apply (required_of_sub c u Hsub Hu). apply in_or_app. right. apply in_or_app. right.
+    apply (required_of_sub c u Hsub Hu). apply in_or_app. right. apply in_or_app. right. apply in_or_app. left.
     apply (tag_uses_of_In (v_vid u) (c_vertices c) w f cf Hw Hf A). now symmetry.
   Qed.
 
-  (* C05 outside the two F11 classes *)
-  Theorem requested_subset_required_outside :
-    k_imported_tag_not_required q = false -> k_count_filter_tag_not_required q = false ->
+  (* C05, unconditionally (F11 repaired: the fourth clause of required_properties lists the tags a fold of
+     the component imports and the tag operands of its fold-count filters) *)
+  Theorem requested_subset_required_all :
     forall r, In r (property_requests q) -> In (snd r) (required_of q (fst r)).
   Proof.
-    intros K1 K2 r Hr. unfold property_requests in Hr. fold top in Hr.
+    intros r Hr. unfold property_requests in Hr. fold top in Hr.
     destruct (property_requests_char top r Hr) as (c & Hsub & Hl).
     inversion Hl as [root vs ss outs r0 Hin|root vs ss outs r0 Hin|root vs ss outs h sub r0 Hfold Hin]; subst.
     - (* a filter's left operand, or its tag operand *)
@@ -429,18 +474,53 @@ Section C05.
       apply find_vertex_some in F. destruct F as [Hu Eu]. rewrite <- Eu.
       apply (required_of_sub _ u Hsub Hu). apply in_or_app. left. cbn [c_outputs].
       apply in_flat_map. exists o. split; [assumption|]. rewrite Eu, N.eqb_refl. now left.
-    - (* an imported tag / the tag operand of a fold-count filter: excluded by the classes *)
-      assert (Hph : In (vs, h) (folds_with_parent top)).
-      { eapply folds_with_parent_sub; [eassumption|]. eapply folds_with_parent_here; eauto. }
+    - (* an imported tag / the tag operand of a fold-count filter: the fourth clause *)
+      assert (K : forall cf u, find_vertex vs (cf_vid cf) = Some u ->
+                    In (cf_name cf) (fold_tag_uses_of (cf_vid cf) ss) ->
+                    In (cf_name cf) (required_of q (cf_vid cf))).
+      { intros cf u F Huse. apply find_vertex_some in F. destruct F as [Hu Eu]. rewrite <- Eu.
+        apply (required_of_sub _ u Hsub Hu). apply in_or_app. right. apply in_or_app. right. apply in_or_app. right.
+        cbn [c_steps]. now rewrite Eu. }
       unfold fold_local_requests in Hin. apply in_app_or in Hin. destruct Hin as [Hin|Hin].
-      + destruct (mem_str (snd r) (required_of q (fst r))) eqn:M; [now apply mem_str_In|exfalso].
-        assert (k_imported_tag_not_required q = true); [|congruence].
-        unfold k_imported_tag_not_required. apply existsb_exists. exists (vs, h). split; [assumption|].
-        apply existsb_exists. exists r. split; [assumption|]. unfold unlisted. now rewrite M.
-      + destruct (mem_str (snd r) (required_of q (fst r))) eqn:M; [now apply mem_str_In|exfalso].
-        assert (k_count_filter_tag_not_required q = true); [|congruence].
-        unfold k_count_filter_tag_not_required. apply existsb_exists. exists (vs, h). split; [assumption|].
-        apply existsb_exists. exists r. split; [assumption|]. unfold unlisted. now rewrite M.
+      + unfold import_requests in Hin. apply in_flat_map in Hin. destruct Hin as (t & Ht & Hin).
+        destruct t as [cf|ff]; [|contradiction]. destruct Hin as [<-|[]]. cbn [fst snd].
+        pose proof (imports_local_sub _ _ Hsub top_imports) as IL.
+        destruct (imports_local_here _ _ _ _ _ _ IL Hfold) as [Hloc _]. destruct (Hloc cf Ht) as [u F].
+        apply (K cf u F). unfold fold_tag_uses_of. apply in_flat_map. exists (SFold h sub). split; [assumption|].
+        apply in_or_app. left. apply in_flat_map. exists (FRContext cf). split; [assumption|].
+        rewrite N.eqb_refl. now left.
+      + apply in_flat_map in Hin. destruct Hin as (pf & Hpf & Hin). unfold tag_request in Hin.
+        destruct (pf_arg pf) as [[[cf|ff]|x t]|] eqn:A; try contradiction.
+        destruct (find_vertex vs (cf_vid cf)) as [u|] eqn:F; [|contradiction].
+        destruct Hin as [<-|[]]. cbn [fst snd].
+        apply (K cf u F). unfold fold_tag_uses_of. apply in_flat_map. exists (SFold h sub). split; [assumption|].
+        apply in_or_app. right. apply in_flat_map. exists pf. split; [assumption|].
+        rewrite A, N.eqb_refl. now left.
+  Qed.
+
+  (* the former conditional form (the two classes of F11 are not needed any more) *)
+  Theorem requested_subset_required_outside :
+    k_imported_tag_not_required q = false -> k_count_filter_tag_not_required q = false ->
+    forall r, In r (property_requests q) -> In (snd r) (required_of q (fst r)).
+  Proof. intros _ _. exact requested_subset_required_all. Qed.
+
+  (* ... and those classes are empty *)
+  Theorem f11_classes_empty :
+    k_imported_tag_not_required q = false /\ k_count_filter_tag_not_required q = false.
+  Proof.
+    split.
+    - destruct (k_imported_tag_not_required q) eqn:K; [exfalso|reflexivity].
+      unfold k_imported_tag_not_required in K. apply existsb_exists in K. destruct K as ((vs & h) & Hph & K).
+      apply existsb_exists in K. destruct K as (r & Hr & U). unfold unlisted in U. apply negb_true_iff in U.
+      assert (H : In (snd r) (required_of q (fst r))); [|apply mem_str_In in H; congruence].
+      apply requested_subset_required_all. unfold property_requests.
+      apply (folds_with_parent_requests _ vs h Hph). unfold fold_local_requests. apply in_or_app. now left.
+    - destruct (k_count_filter_tag_not_required q) eqn:K; [exfalso|reflexivity].
+      unfold k_count_filter_tag_not_required in K. apply existsb_exists in K. destruct K as ((vs & h) & Hph & K).
+      apply existsb_exists in K. destruct K as (r & Hr & U). unfold unlisted in U. apply negb_true_iff in U.
+      assert (H : In (snd r) (required_of q (fst r))); [|apply mem_str_In in H; congruence].
+      apply requested_subset_required_all. unfold property_requests.
+      apply (folds_with_parent_requests _ vs h Hph). unfold fold_local_requests. apply in_or_app. now right.
   Qed.
 End C05.
 
@@ -1609,7 +1689,7 @@ Section HintPruner.
         assert (Hsub' : subcomp sub top).
         { eapply subcomp_trans; [|exact Hsub]. destruct c as [r0 vs0 ss0 o0]. econstructor; [exact Hf|constructor]. }
         assert (FR : fo_to h = c_root sub).
-        { pose proof Hwfq as W. unfold wf_hints_query in W. apply andb_prop in W. destruct W as [_ W].
+        { destruct (wf_hints_query_parts q Hwfq) as (_ & _ & W & _).
           pose proof (fold_roots_ok_sub c top Hsub W) as Wc. destruct c as [r0 vs0 ss0 o0].
           now destruct (fold_roots_ok_here _ _ _ _ _ _ Wc Hf). }
         destruct sub as [root vs ss outs] eqn:Es. rewrite sem_comp_eq.
@@ -1791,9 +1871,9 @@ Proof.
   apply existsb_exists. exists f. split; [assumption|]. unfold ge_tag_filter. now rewrite Hfo, E, Hfa.
 Qed.
 
-(* ---- F11: properties resolved for imported tags / fold-count filter tags are not listed ---- *)
-(* full statement (FALSE): forall q r, wf_hints_query q = true -> In r (property_requests q) ->
-     In (snd r) (required_of q (fst r))                                                        *)
+(* ---- F11 (repaired in /repo 45c56fc): properties resolved for imported tags / fold-count filter tags
+   used not to be listed ---- *)
+(* formerly false (F11), now requested_subset_required_all; the former witnesses as regressions *)
 (*   query { Thing { name @tag(name: "t") id @output link @fold { name @filter(op: "=", value: ["%t"]) id @output(name: "ids") } } } *)
 Definition rq_f11a : raw_query :=
   mkRQ "Thing" [("hi", Null); ("lo", Null)]
@@ -1811,21 +1891,21 @@ Definition rq_f11b : raw_query :=
               (RComp 2 [mkV 2 "Thing" None []] [] [] [("ids", mkCF 2 "id" ty_int_nn)])]
        [("id", mkCF 1 "id" ty_int_nn)]) [].
 
-Theorem requested_subset_required_imported_refuted :
+Theorem requested_subset_required_imported_regression :
   let q := q_of rq_f11a in
     lower_query rq_f11a = Ok q /\ wf_hints_query q = true /\
-    existsb (pair_eqb (1, "name")) (property_requests q) = true /\ mem_str "name" (required_of q 1) = false /\
-    k_imported_tag_not_required q = true /\ k_count_filter_tag_not_required q = false /\
-    (* the Exec-level log of a run contains the request *)
-    has_request (trace_query no_regex (graph_of_dataset ds_f10) [] q) 1 "name" = true.
+    existsb (pair_eqb (1, "name")) (property_requests q) = true /\
+    has_request (trace_query no_regex (graph_of_dataset ds_f10) [] q) 1 "name" = true /\
+    (* F11 repaired: the imported tag's property is listed now *)
+    required_of q 1 = ["id"; "name"] /\ k_imported_tag_not_required q = false.
 Proof. vm_compute. repeat split; reflexivity. Qed.
 
-Theorem requested_subset_required_count_tag_refuted :
+Theorem requested_subset_required_count_tag_regression :
   let q := q_of rq_f11b in
     lower_query rq_f11b = Ok q /\ wf_hints_query q = true /\
-    existsb (pair_eqb (1, "score")) (property_requests q) = true /\ mem_str "score" (required_of q 1) = false /\
-    k_count_filter_tag_not_required q = true /\ k_imported_tag_not_required q = false /\
-    has_request (trace_query no_regex (graph_of_dataset ds_f10) [] q) 1 "score" = true.
+    existsb (pair_eqb (1, "score")) (property_requests q) = true /\
+    has_request (trace_query no_regex (graph_of_dataset ds_f10) [] q) 1 "score" = true /\
+    required_of q 1 = ["id"; "score"] /\ k_count_filter_tag_not_required q = false.
 Proof. vm_compute. repeat split; reflexivity. Qed.
 
 (* the statement as worded in the property (with the __typename escape) *)
@@ -1834,6 +1914,12 @@ Theorem requested_subset_required q :
   k_imported_tag_not_required q = false -> k_count_filter_tag_not_required q = false ->
   forall r, In r (property_requests q) -> snd r = "__typename" \/ In (snd r) (required_of q (fst r)).
 Proof. intros W K1 K2 r Hr. right. exact (requested_subset_required_outside q W K1 K2 r Hr). Qed.
+
+(* ... and without excluding anything (F11 repaired) *)
+Theorem requested_subset_required_unconditional q :
+  wf_hints_query q = true ->
+  forall r, In r (property_requests q) -> snd r = "__typename" \/ In (snd r) (required_of q (fst r)).
+Proof. intros W r Hr. right. exact (requested_subset_required_all q W r Hr). Qed.
 
 (* ====================================================================================== *)
 (* Part 8: C05 — the logged interpreter only requests what property_requests lists           *)
@@ -2002,6 +2088,15 @@ Theorem run_requests_required re g args q rows evs :
 Proof.
   intros W K1 K2 H v p Hin.
   exact (requested_subset_required_outside q W K1 K2 (v, p) (trace_query_requests_listed re g args q rows evs H v p Hin)).
+Qed.
+
+Theorem run_requests_required_all re g args q rows evs :
+  wf_hints_query q = true ->
+  trace_query re g args q = Ok (rows, evs) ->
+  forall v p, In (EProp v p) evs -> In p (required_of q v).
+Proof.
+  intros W H v p Hin.
+  exact (requested_subset_required_all q W (v, p) (trace_query_requests_listed re g args q rows evs H v p Hin)).
 Qed.
 
 (* the list-recursive take used by the logged interpreter is firstn (Z.to_nat m), i.e. the logged
